@@ -352,3 +352,22 @@ func LoadReplayCase(path string, v any) error {
 	}
 	return fmt.Errorf("no case in replay file %s", path)
 }
+
+// LoadCorpus reads every corpus/<id>/*.json file (a replay file or a bare case) into a slice of cases.
+// Corpus cases are minimised failing histories found earlier; harnesses run them first on every run.
+func LoadCorpus[T any](env Env, id string) []T {
+	var out []T
+	files, _ := filepath.Glob(filepath.Join(env.Dir, "corpus", id, "*.json"))
+	sort.Strings(files)
+	for _, f := range files {
+		var c T
+		if err := LoadReplayCase(f, &c); err != nil {
+			b, err2 := os.ReadFile(f)
+			if err2 != nil || json.Unmarshal(b, &c) != nil {
+				continue
+			}
+		}
+		out = append(out, c)
+	}
+	return out
+}
